@@ -631,6 +631,21 @@ def pushTrace (ups : List UpScript) (sched : List Nat) (man : List Resp) : Optio
     (if layersGood ups then some (r.1 ++ (manifestRun man).1, (manifestRun man).2) else some (r.1, false))
   else none
 
+/-- The blobs `Registry.Push` offers to the registry before the manifest PUT.  `cfgToo = false` is
+    the tree with finding F30: only `m.Layers` — the config blob, which the manifest names and
+    which `Pull` (and the legacy `PushModel`) treat like any layer, is never offered, and is not
+    even looked for in the cache.  `cfgToo = true` (proposed_fixes/C09-F30-push-config-layer.patch):
+    `m.Layers` plus a valid `m.Config`, i.e. `Manifest.all`, the set `Pull` fetches. -/
+def pushedLayers {D : Type} (cfgToo : Bool) (m : Manifest D) : List (Layer D) :=
+  if cfgToo then m.all else m.layers
+
+/-- `Registry.Push` of a cached manifest.  `scripts` are the registry's answers for the blobs of
+    `m.all`, in that order (layers, then the config: its requests carry index `m.layers.length`);
+    the script of a blob the client never offers is not consumed. -/
+def pushManifest {D : Type} (cfgToo : Bool) (m : Manifest D) (scripts : List UpScript) (sched : List Nat)
+    (man : List Resp) : Option (List PushEv × Bool) :=
+  pushTrace (scripts.take (pushedLayers cfgToo m).length) sched man
+
 /-! ## Push (legacy, `server.PushModel`): strictly sequential -/
 
 /-- the registry's answers for one layer: to the HEAD exchange, to the POST exchange that opens
